@@ -321,7 +321,7 @@ class VerticesSetStub(Contract):
             if I.path.branch(Z(xyz.shape[0]) < Z(cur.shape[0]), "fewer-vertices"):
                 I.raise_(ValueError)
         me.fields["_vertices"] = xyz
-        I.event("persist", entity=me, group="vertices")
+        I.event("persist", entity=me, group="vertices", arr=xyz)
         return None
 
 
@@ -341,7 +341,7 @@ class CellsSetStub(Contract):
         me.fields["_cells"] = cells
         me.fields["_parts"] = None
         I.event("cells-set", arr=cells)
-        I.event("persist", entity=me, group="cells")
+        I.event("persist", entity=me, group="cells", arr=cells)
         return None
 
 
@@ -353,6 +353,13 @@ def _in_removed(idx, n, i):
     q = z3.Int(fresh_name("q"))
     e = idx.elem(q)
     return z3.Exists([q], z3.And(q >= 0, q < Z(idx.shape[0]), z3.If(e >= 0, e, e + n) == i))
+
+
+def _written_through(ctx, obj, field, group):
+    """the array now held in `field` is the one the public setter stored and persisted last"""
+    cur = obj.fields.get(field)
+    last = [p for k, p in ctx.path.events if k == "persist" and p.get("group") == group and p.get("entity") is obj]
+    return bool(last) and last[-1].get("arr") is cur
 
 
 class PointsRemoveVertices(Contract):
@@ -379,6 +386,7 @@ class PointsRemoveVertices(Contract):
         newV = obj.fields["_vertices"]
         ok = newV is not V and getattr(newV, "sel", None) is not None
         ctx.oblige("vertices-replaced-by-a-selection-of-the-old-ones", ok)
+        ctx.oblige("the-reduced-vertices-are-written-through-to-the-file", _written_through(ctx, obj, "_vertices", "vertices"), note="the stored vertices were not assigned through the persisting setter")
         if not ok:
             return
         _, keep, pos, rank = newV.sel
@@ -445,6 +453,7 @@ class CellRemoveCells(Contract):
         newC = obj.fields["_cells"]
         ok = newC is not C and getattr(newC, "sel", None) is not None
         ctx.oblige("cells-replaced-by-a-selection-of-the-old-ones", ok)
+        ctx.oblige("the-reduced-cells-are-written-through-to-the-file", _written_through(ctx, obj, "_cells", "cells"), note="the stored cells were not assigned through the persisting setter")
         if not ok:
             return
         _, keep, pos, rank = newC.sel
@@ -492,6 +501,9 @@ class CellRemoveVertices(Contract):
         newV, newC = obj.fields["_vertices"], obj.fields["_cells"]
         ok = isinstance(newV, Arr) and newV is not V and getattr(newV, "sel", None) is not None and isinstance(newC, Arr)
         ctx.oblige("geometry-replaced-by-selections", ok)
+        ctx.oblige("the-reduced-vertices-are-written-through-to-the-file", _written_through(ctx, obj, "_vertices", "vertices"), note="the stored vertices were not assigned through the persisting setter")
+        if isinstance(newC, Arr) and newC is not C:
+            ctx.oblige("the-reduced-cells-are-written-through-to-the-file", _written_through(ctx, obj, "_cells", "cells"), note="the stored cells were not assigned through the persisting setter")
         if not ok:
             return
         _, vmask, vpos, vrank = newV.sel
